@@ -408,12 +408,25 @@ def materialise(scn, wd):
             os.utime(os.path.join(wd, f.path), (f.mtime, f.mtime))
 
 
+# While a violation is being minimised the engine sets a wall-clock budget: candidates that hang cost one (shortened) cap
+# each, and without a budget a hang found in a large scenario keeps the minimiser busy for hours.
+MINIMISE_DEADLINE = [None]
+
+
+def budget_ok():
+    d = MINIMISE_DEADLINE[0]
+    return d is None or time.time() < d
+
+
 def execute(scn, plan, keep=False, wall_cap=30.0, binary=None, want_trace=True, retry=True, retry_cap=None):
     """Run one simulated execution. Returns Result. The run directory is removed unless keep.
 
     A run that hits the wall-clock cap is re-run once *in isolation* (one such re-run at a time across all
     workers, generous cap) before the timeout may count: machine load must not raise an alarm. Scheduler-level
     DEADLOCK / LIVELOCK verdicts are deterministic and need no re-run."""
+    if MINIMISE_DEADLINE[0] is not None:
+        # minimising: a candidate that hangs is given 12 s, once (the written file is confirmed afterwards under the full caps)
+        return _execute_once(scn, plan, keep, min(wall_cap, 12.0), binary, want_trace)
     res = _execute_once(scn, plan, keep, wall_cap, binary, want_trace)
     if res.timed_out and retry:
         import fcntl
